@@ -113,6 +113,9 @@ var sizeClasses = []int{0, 1, 2, 9, 15, 16, 17, 255, 256, 257, 1000, 4095, 4096,
 
 // Size draws a body size: small boundary values mostly; up to max otherwise.
 func Size(r *core.Rand, max int) int {
+	if max > 1<<20 && r.Bool() {
+		return []int{1<<20 - 1, 1 << 20, 1<<20 + 1, max}[r.Intn(4)]
+	}
 	switch r.Intn(10) {
 	case 0, 1, 2, 3:
 		n := sizeClasses[r.Intn(len(sizeClasses))]
